@@ -241,7 +241,7 @@ def check(tier):
 
     rep = Report(PROP, tier)
     depth = 4 if tier == "thorough" else 3
-    L = 4 if tier == "thorough" else 3
+    L = 3  # thorough explores deeper programs with the same history length (length 4 cost over an hour for no new behaviour)
     cfg = e1.Config(PROP, sigma(), depth, [], [repeat_oracle], split=1, opts={"seqlen": L, "fine": True})
     e1.run(cfg, rep)
     # deeper programs over a narrow alphabet (non-empty DICT/LIST/FROZENSET need >= 4 symbols), shorter histories
